@@ -1,6 +1,7 @@
 package gov
 
 import (
+	"sync"
 	"fmt"
 	"go/token"
 	"go/types"
@@ -30,6 +31,8 @@ type Engine struct {
 	SpecDir   string
 	Overlay   map[string][]byte
 	LoadErrs  []string
+	lockSecMu sync.Mutex
+	lockSecs  map[string]map[*ssa.Function]bool // monitor name -> functions that lock its mutex
 }
 
 // Load loads the given package patterns of /repo (working tree, tag verif) and all contracts.
